@@ -322,11 +322,12 @@ theorem sub_beq_zero (a m : Byte) : (a - m == 0) = (a == m) := by
 /-- a piece of condition code generated at state `g`: started anywhere, it ends at `label` when
     `jumpIf` holds of the source-visible state and right behind itself otherwise; memory, X, Y, SP are
     unchanged and the generator's belief about the flags is true afterwards (on both exits) -/
-def CondSpec (L : Layout) (g : GState) (r : List GLine × GState) (label : Lbl) (jumpIf : SrcSt → Bool) : Prop :=
+def CondSpec (L : Layout) (g : GState) (r : List GLine × GState) (label : Lbl) (jumpIf : SrcSt → Bool)
+    (eff : SrcSt → SrcSt := fun m => m) : Prop :=
   ∀ (pre post : List GLine) (s : Cpu) (t : Nat), Old g pre → FlagsInv L g.flags s →
     findLbl (pre ++ r.1 ++ post) label = some t →
     ∃ s', Steps L (pre ++ r.1 ++ post) pre.length s (if jumpIf (srcOf s) then t else pre.length + r.1.length) s' ∧
-      srcOf s' = srcOf s ∧ s'.sp = s.sp ∧ FlagsInv L r.2.flags s'
+      srcOf s' = eff (srcOf s) ∧ s'.sp = s.sp ∧ FlagsInv L r.2.flags s'
 
 theorem flagsInv_some (L : Layout) (ref : LV) (s : Cpu) :
     FlagsInv L (some ref) s ↔ s.f.z = (rval L (srcOf s) ref.ra == 0) := by
@@ -640,7 +641,7 @@ theorem finalOp_unordered (op : COp) (negate switch : Bool) (h : op.ordered = fa
   cases op <;> cases negate <;> cases switch <;> simp [COp.ordered] at h <;> simp [finalOp, COp.negate, COp.mirror]
 
 theorem CondSpec.congr {L : Layout} {g : GState} {r : List GLine × GState} {label : Lbl} {j j' : SrcSt → Bool}
-    (h : ∀ m, j m = j' m) (hs : CondSpec L g r label j) : CondSpec L g r label j' := by
+    {e : SrcSt → SrcSt} (h : ∀ m, j m = j' m) (hs : CondSpec L g r label j e) : CondSpec L g r label j' e := by
   have : j = j' := funext h
   rw [← this]; exact hs
 
@@ -811,11 +812,11 @@ theorem genCondEx_correct (L : Layout) (g : GState) (l r : RA) (op : COp) (negat
 
 /-! ### comparisons with a tree operand (stage 12) -/
 
-/-- the code of a quiet accepted tree: runs to its end, changes nothing the source sees, leaves the tree's value in A
-    with Z describing it -/
-theorem treeOps_run (L : Layout) (e : GExpr) (hok : e.ok = true) (hq : quietE {} e = true) (s : Cpu) :
-    ∃ s', execSeq s ((treeOps e).map fun p => (p.1, opdOf L p.2)) = some s' ∧ srcOf s' = srcOf s ∧ s'.sp = s.sp ∧
-      s'.a = treeVal L (srcOf s) e ∧ GenReg.ZA s' := by
+/-- the code of an accepted tree: runs to its end, leaves the state `treeRun` describes (scratch cell, stack page) and
+    the tree's value in A with Z describing it; SP is back where it was -/
+theorem treeOps_run (L : Layout) (e : GExpr) (hok : e.ok = true) (s : Cpu) :
+    ∃ s', execSeq s ((treeOps e).map fun p => (p.1, opdOf L p.2)) = some s' ∧ srcOf s' = (treeRun L (srcOf s) e).2 ∧ s'.sp = s.sp ∧
+      s'.a = (treeRun L (srcOf s) e).1 ∧ GenReg.ZA s' := by
   have hne : ∀ a, e ≠ .atom a := by intro a h; subst h; simp [GExpr.ok] at hok
   obtain ⟨c, st', hg⟩ := (genE_ok_iff (none : Option Atom) (fun a => some a) e hne).1 hok
   have hnat := genE_nat (opdOf L) (none : Option Atom) (fun a => some a) e {}
@@ -824,48 +825,50 @@ theorem treeOps_run (L : Layout) (e : GExpr) (hok : e.ok = true) (hq : quietE {}
     simpa [opdOf] using hnat
   obtain ⟨s', q, ev, ex, hm, ha, hz⟩ := genE_exec L e {} _ .acc st' hg' s (by intro h; cases h)
   have hacc := (genE_acc Opd.none (opd L) _ _ _ _ _ hg').2 rfl
-  have hq1 := evalE_quiet L e (srcOf s) s.a {} q .acc st' hq ev
   have hirr := evalE_acc_irrelevant L e (srcOf s) s.a 0 {} (by intro h; cases h)
   rw [ev] at hirr
   have hto : treeOps e = c := by simp [treeOps, hg]
-  refine ⟨s', by rw [hto]; exact ex, by rw [hm, hq1], ?_, ?_, hz hacc⟩
-  · exact congrArg SrcSt.sp (hm.trans hq1)
-  · unfold treeVal
-    cases h0 : evalE L (srcOf s) 0 {} e with
-    | none => rw [h0] at hirr; exact hirr.elim
-    | some y =>
-      obtain ⟨⟨σ2, a2⟩, t2, st2⟩ := y
-      obtain ⟨σq, aq⟩ := q
-      rw [h0] at hirr
-      simp only at hirr
-      obtain ⟨_, ht, hs, hv⟩ := hirr
-      subst ht; subst hs
-      rw [ha]
-      exact hv hacc
+  have hsp0 := evalE_sp L e (srcOf s) s.a {} q .acc st' ev
+  cases h0 : evalE L (srcOf s) 0 {} e with
+  | none => rw [h0] at hirr; exact hirr.elim
+  | some y =>
+    obtain ⟨⟨σ2, a2⟩, t2, st2⟩ := y
+    obtain ⟨σq, aq⟩ := q
+    rw [h0] at hirr
+    simp only at hirr
+    obtain ⟨hσ, ht, hs, hv⟩ := hirr
+    subst ht; subst hs; subst hσ
+    have hrun : treeRun L (srcOf s) e = (a2, σq) := by unfold treeRun; rw [h0]
+    refine ⟨s', by rw [hto]; exact ex, by rw [hrun]; exact hm, ?_, by rw [hrun, ha]; exact hv hacc, hz hacc⟩
+    have := congrArg SrcSt.sp hm
+    simp only at hsp0 this
+    exact this.trans hsp0
 
 theorem treeLines_eq (e : GExpr) : treeLines e = (treeOps e).map fun p => GLine.ins p.1 p.2 := rfl
 
 /-- a tree in A against a memory operand or constant -/
 theorem cmpETest_correct (L : Layout) (g : GState) (op : COp) (e : GExpr) (b : Atom) (eLeft negate : Bool) (label : Lbl)
-    (hok : e.ok = true) (hq : quietE {} e = true) (hz0 : (op.ordered && RA.isZero (.of b)) = false) :
-    CondSpec L g (cmpETest g op e b eLeft negate label) label (fun m => evalCond L m (.cmpE op e b eLeft) != negate) := by
-  have hcongr : ∀ m : SrcSt, (finalOp op negate (!eLeft)).eval (treeVal L m e) (val L m.mem m.x m.y b)
+    (hok : e.ok = true) (hz0 : (op.ordered && RA.isZero (.of b)) = false) :
+    CondSpec L g (cmpETest g op e b eLeft negate label) label (fun m => evalCond L m (.cmpE op e b eLeft) != negate)
+      (fun m => (treeRun L m e).2) := by
+  have hcongr : ∀ m : SrcSt, (finalOp op negate (!eLeft)).eval (treeRun L m e).1
+        (val L (treeRun L m e).2.mem (treeRun L m e).2.x (treeRun L m e).2.y b)
       = (evalCond L m (.cmpE op e b eLeft) != negate) := by
     intro m
     cases eLeft with
-    | true => simpa [evalCond] using finalOp_eval op negate false (treeVal L m e) (val L m.mem m.x m.y b)
-    | false => simpa [evalCond] using finalOp_eval op negate true (val L m.mem m.x m.y b) (treeVal L m e)
+    | true => simpa [evalCond_cmpE] using finalOp_eval op negate false (treeRun L m e).1 (val L (treeRun L m e).2.mem (treeRun L m e).2.x (treeRun L m e).2.y b)
+    | false => simpa [evalCond_cmpE] using finalOp_eval op negate true (val L (treeRun L m e).2.mem (treeRun L m e).2.x (treeRun L m e).2.y b) (treeRun L m e).1
   refine CondSpec.congr hcongr ?_
   intro pre post s t hold hinv hl
-  obtain ⟨s1, he, hsrc, hsp, ha, hza⟩ := treeOps_run L e hok hq s
+  obtain ⟨s1, he, hsrc, hsp, ha, hza⟩ := treeOps_run L e hok s
   by_cases hzb : RA.isZero (.of b) = true
   · -- compared with literal 0: the flags describe A
     have hun : op.ordered = false := by
       cases h : op.ordered
       · rfl
       · simp [h, hzb] at hz0
-    have hvb : val L (srcOf s).mem (srcOf s).x (srcOf s).y b = 0 := isZero_val L _ _ _ b hzb
-    have hz1 : s1.f.z = (treeVal L (srcOf s) e == 0) := by rw [← ha]; exact hza
+    have hvb : val L (treeRun L (srcOf s) e).2.mem (treeRun L (srcOf s) e).2.x (treeRun L (srcOf s) e).2.y b = 0 := isZero_val L _ _ _ b hzb
+    have hz1 : s1.f.z = ((treeRun L (srcOf s) e).1 == 0) := by rw [← ha]; exact hza
     rcases finalOp_unordered op negate (!eLeft) hun with hop | hop
     · simp only [cmpETest, hzb, if_true, hop] at hl ⊢
       have h12 := steps_of_execSeq L (treeOps e) pre ([.br .BEQ label] ++ post) s s1 he
@@ -874,7 +877,7 @@ theorem cmpETest_correct (L : Layout) (g : GState) (op : COp) (e : GExpr) (b : A
       rw [w] at h12
       have hl' : findLbl ((pre ++ treeLines e) ++ [GLine.br .BEQ label] ++ post) label = some t := by
         simpa [List.append_assoc] using hl
-      have h3 := br_step L (pre ++ treeLines e) [.br .BEQ label] post 0 .BEQ label s1 (treeVal L (srcOf s) e == 0) t rfl
+      have h3 := br_step L (pre ++ treeLines e) [.br .BEQ label] post 0 .BEQ label s1 ((treeRun L (srcOf s) e).1 == 0) t rfl
         (by simp [Cpu.taken, hz1]) hl'
       have w2 : (pre ++ treeLines e) ++ [GLine.br .BEQ label] ++ post = pre ++ (treeLines e ++ [GLine.br .BEQ label]) ++ post := by simp
       rw [w2] at h3
@@ -890,7 +893,7 @@ theorem cmpETest_correct (L : Layout) (g : GState) (op : COp) (e : GExpr) (b : A
       rw [w] at h12
       have hl' : findLbl ((pre ++ treeLines e) ++ [GLine.br .BNE label] ++ post) label = some t := by
         simpa [List.append_assoc] using hl
-      have h3 := br_step L (pre ++ treeLines e) [.br .BNE label] post 0 .BNE label s1 (!(treeVal L (srcOf s) e == 0)) t rfl
+      have h3 := br_step L (pre ++ treeLines e) [.br .BNE label] post 0 .BNE label s1 (!((treeRun L (srcOf s) e).1 == 0)) t rfl
         (by simp [Cpu.taken, hz1]) hl'
       have w2 : (pre ++ treeLines e) ++ [GLine.br .BNE label] ++ post = pre ++ (treeLines e ++ [GLine.br .BNE label]) ++ post := by simp
       rw [w2] at h3
@@ -930,49 +933,132 @@ theorem cmpETest_correct (L : Layout) (g : GState) (op : COp) (e : GExpr) (b : A
       simp [hlab] at hl; exact hold l hl
     have hl' : findLbl ((pre ++ (treeLines e ++ [GLine.ins .CMP (some b)])) ++ br.1 ++ post) label = some t := by
       simpa [List.append_assoc] using hl
-    have hmem : val L s1.mem s1.x s1.y b = val L (srcOf s).mem (srcOf s).x (srcOf s).y b := by
+    have hmem : val L s1.mem s1.x s1.y b = val L (treeRun L (srcOf s) e).2.mem (treeRun L (srcOf s) e).2.x (treeRun L (srcOf s) e).2.y b := by
       rw [← hsrc]; rfl
-    have hzf : (s1.cmp s1.a (val L s1.mem s1.x s1.y b)).f.z = (treeVal L (srcOf s) e == val L (srcOf s).mem (srcOf s).x (srcOf s).y b) := by
+    have hzf : (s1.cmp s1.a (val L s1.mem s1.x s1.y b)).f.z = ((treeRun L (srcOf s) e).1 == val L (treeRun L (srcOf s) e).2.mem (treeRun L (srcOf s) e).2.x (treeRun L (srcOf s) e).2.y b) := by
       rw [← hmem, ← ha]
       simp [Cpu.cmp, Cpu.setNZ]
       exact sub_beq_zero _ _
     have hcf : (s1.cmp s1.a (val L s1.mem s1.x s1.y b)).f.c
-        = decide ((val L (srcOf s).mem (srcOf s).x (srcOf s).y b).toNat ≤ (treeVal L (srcOf s) e).toNat) := by
+        = decide ((val L (treeRun L (srcOf s) e).2.mem (treeRun L (srcOf s) e).2.x (treeRun L (srcOf s) e).2.y b).toNat ≤ ((treeRun L (srcOf s) e).1).toNat) := by
       rw [← hmem, ← ha]
       simp [Cpu.cmp]
     have h3 := branchInstr_steps L { g with flags := none } op' label (pre ++ (treeLines e ++ [GLine.ins .CMP (some b)])) post _ t
-      (treeVal L (srcOf s) e) (val L (srcOf s).mem (srcOf s).x (srcOf s).y b) hzf hcf hold' hl'
+      ((treeRun L (srcOf s) e).1) (val L (treeRun L (srcOf s) e).2.mem (treeRun L (srcOf s) e).2.x (treeRun L (srcOf s) e).2.y b) hzf hcf hold' hl'
     have w2 : (pre ++ (treeLines e ++ [GLine.ins .CMP (some b)])) ++ br.1 ++ post
         = pre ++ ((treeLines e ++ [GLine.ins .CMP (some b)]) ++ br.1) ++ post := by simp
     rw [w2] at h3
     have hlen : (treeLines e ++ [GLine.ins .CMP (some b)]).length = ops.length := by rw [hlines]; simp
     refine ⟨s1.cmp s1.a (val L s1.mem s1.x s1.y b), ?_, ?_, ?_, ?_⟩
-    · show Steps L _ pre.length s (if op'.eval (treeVal L (srcOf s) e) (val L (srcOf s).mem (srcOf s).x (srcOf s).y b) = true then t else _) _
-      rcases Bool.eq_false_or_eq_true (op'.eval (treeVal L (srcOf s) e) (val L (srcOf s).mem (srcOf s).x (srcOf s).y b)) with hev | hev
+    · show Steps L _ pre.length s (if op'.eval ((treeRun L (srcOf s) e).1) (val L (treeRun L (srcOf s) e).2.mem (treeRun L (srcOf s) e).2.x (treeRun L (srcOf s) e).2.y b) = true then t else _) _
+      rcases Bool.eq_false_or_eq_true (op'.eval ((treeRun L (srcOf s) e).1) (val L (treeRun L (srcOf s) e).2.mem (treeRun L (srcOf s) e).2.x (treeRun L (srcOf s) e).2.y b)) with hev | hev
       · simp only [hev, if_true] at h3 ⊢
         exact h12.trans (h3.cast (by rw [List.length_append, hlen]) rfl)
       · simp only [hev, Bool.false_eq_true, if_false] at h3 ⊢
         exact h12.trans (h3.cast (by rw [List.length_append, hlen]) (by simp only [List.length_append, br]; omega))
-    · rw [← hsrc]; rfl
+    · show srcOf (s1.cmp s1.a (val L s1.mem s1.x s1.y b)) = (treeRun L (srcOf s) e).2
+      rw [← hsrc]; rfl
     · rw [← hsp]; rfl
     · rw [hst]
       show FlagsInv L (branchInstr { g with flags := none } op' label).2.flags _
       rw [branchInstr_flags_none]; trivial
 
+/-- a tree against X or Y -/
+theorem cmpRTest_correct (L : Layout) (g : GState) (op : COp) (e : GExpr) (y eLeft negate : Bool) (label : Lbl)
+    (hok : e.ok = true) :
+    CondSpec L g (cmpRTest g op e y eLeft negate label) label (fun m => evalCond L m (.cmpR op e y eLeft) != negate)
+      (fun m => setTmp L (treeRun L m e).2 (treeRun L m e).1) := by
+  have hcongr : ∀ m : SrcSt, (finalOp op negate eLeft).eval (if y then (treeRun L m e).2.y else (treeRun L m e).2.x) (treeRun L m e).1
+      = (evalCond L m (.cmpR op e y eLeft) != negate) := by
+    intro m
+    cases eLeft with
+    | true => simpa [evalCond_cmpR] using finalOp_eval op negate true (treeRun L m e).1 (if y then (treeRun L m e).2.y else (treeRun L m e).2.x)
+    | false => simpa [evalCond_cmpR] using finalOp_eval op negate false (if y then (treeRun L m e).2.y else (treeRun L m e).2.x) (treeRun L m e).1
+  refine CondSpec.congr hcongr ?_
+  intro pre post s t hold hinv hl
+  obtain ⟨s1, he, hsrc, hsp, ha, hza⟩ := treeOps_run L e hok s
+  let op' := finalOp op negate eLeft
+  let br := branchInstr { g with flags := none } op' label
+  let cpm : Mn := if y then .CPY else .CPX
+  let mid : List GLine := treeLines e ++ [GLine.ins .STA (some tmp), GLine.ins cpm (some tmp)]
+  have hcode : (cmpRTest g op e y eLeft negate label).1 = mid ++ br.1 := by
+    simp [cmpRTest, mid, br, op', cpm]
+  have hst : (cmpRTest g op e y eLeft negate label).2 = br.2 := by
+    simp [cmpRTest, br, op']
+  rw [hcode] at hl ⊢
+  let ops := treeOps e ++ [(Mn.STA, some tmp), (cpm, some tmp)]
+  let s2 : Cpu := { s1 with mem := s1.mem.write (L "cctmp") s1.a }
+  have hv2 : val L s2.mem s2.x s2.y tmp = s1.a := by simp [s2, tmp, val]
+  have hcmp : ∃ s3, execSeq s2 [(cpm, opd L tmp)] = some s3 ∧
+      s3.f.z = ((if y then s1.y else s1.x) == s1.a) ∧ s3.f.c = decide (s1.a.toNat ≤ (if y then s1.y else s1.x).toNat) ∧
+      srcOf s3 = srcOf s2 ∧ s3.sp = s2.sp := by
+    cases y with
+    | false =>
+      obtain ⟨s3, h1, h2, h3, h4, h5⟩ := cpx_exec L s2 tmp
+      rw [hv2] at h2 h3
+      exact ⟨s3, h1, h2, h3, h4, h5⟩
+    | true =>
+      obtain ⟨s3, h1, h2, h3, h4, h5⟩ := cpy_exec L s2 tmp
+      rw [hv2] at h2 h3
+      exact ⟨s3, h1, h2, h3, h4, h5⟩
+  obtain ⟨s3, hc3, hz3, hcf3, hsrc3, hsp3⟩ := hcmp
+  have he2 : execSeq s (ops.map fun p => (p.1, opdOf L p.2)) = some s3 := by
+    have hsplit : ops.map (fun p => (p.1, opdOf L p.2))
+        = (treeOps e).map (fun p => (p.1, opdOf L p.2)) ++ ([(Mn.STA, opd L tmp)] ++ [(cpm, opd L tmp)]) := by
+      simp [ops, opdOf]
+    rw [hsplit, execSeq_append', he]
+    simp only [Option.bind_some, execSeq_append', GenReg.staTmp_exec]
+    exact hc3
+  have hlines : mid = ops.map fun p => GLine.ins p.1 p.2 := by simp [mid, ops, treeLines_eq]
+  have h12 := steps_of_execSeq L ops pre (br.1 ++ post) s s3 he2
+  rw [← hlines] at h12
+  have w : pre ++ mid ++ (br.1 ++ post) = pre ++ (mid ++ br.1) ++ post := by simp
+  rw [w] at h12
+  have hlab : labels mid = [] := by simp [mid, labels_treeLines]
+  have hold' : Old { g with flags := none } (pre ++ mid) := by
+    rw [old_flags]
+    intro l hl
+    simp [hlab] at hl; exact hold l hl
+  have hl' : findLbl ((pre ++ mid) ++ br.1 ++ post) label = some t := by simpa [List.append_assoc] using hl
+  have hreg : (if y then s1.y else s1.x) = (if y then (treeRun L (srcOf s) e).2.y else (treeRun L (srcOf s) e).2.x) := by
+    rw [← hsrc]; rfl
+  have hz3' : s3.f.z = ((if y then (treeRun L (srcOf s) e).2.y else (treeRun L (srcOf s) e).2.x) == (treeRun L (srcOf s) e).1) := by
+    rw [← hreg, ← ha]; exact hz3
+  have hc3' : s3.f.c = decide ((treeRun L (srcOf s) e).1.toNat ≤ (if y then (treeRun L (srcOf s) e).2.y else (treeRun L (srcOf s) e).2.x).toNat) := by
+    rw [← hreg, ← ha]; exact hcf3
+  have h3 := branchInstr_steps L { g with flags := none } op' label (pre ++ mid) post s3 t
+    (if y then (treeRun L (srcOf s) e).2.y else (treeRun L (srcOf s) e).2.x) (treeRun L (srcOf s) e).1 hz3' hc3' hold' hl'
+  have w2 : (pre ++ mid) ++ br.1 ++ post = pre ++ (mid ++ br.1) ++ post := by simp
+  rw [w2] at h3
+  have hlen : mid.length = ops.length := by rw [hlines]; simp
+  refine ⟨s3, ?_, ?_, by rw [hsp3]; exact hsp, ?_⟩
+  · show Steps L _ pre.length s (if op'.eval (if y then (treeRun L (srcOf s) e).2.y else (treeRun L (srcOf s) e).2.x) (treeRun L (srcOf s) e).1 = true then t else _) _
+    rcases Bool.eq_false_or_eq_true (op'.eval (if y then (treeRun L (srcOf s) e).2.y else (treeRun L (srcOf s) e).2.x) (treeRun L (srcOf s) e).1) with hev | hev
+    · simp only [hev, if_true] at h3 ⊢
+      exact h12.trans (h3.cast (by rw [List.length_append, hlen]) rfl)
+    · simp only [hev, Bool.false_eq_true, if_false] at h3 ⊢
+      exact h12.trans (h3.cast (by rw [List.length_append, hlen]) (by simp only [List.length_append, br]; omega))
+  · show srcOf s3 = setTmp L (treeRun L (srcOf s) e).2 (treeRun L (srcOf s) e).1
+    rw [hsrc3, ← hsrc, ← ha]; rfl
+  · rw [hst]
+    show FlagsInv L (branchInstr { g with flags := none } op' label).2.flags _
+    rw [branchInstr_flags_none]; trivial
+
 /-- `if (e)` for a tree -/
 theorem truthETest_correct (L : Layout) (g : GState) (e : GExpr) (negate : Bool) (label : Lbl)
-    (hok : e.ok = true) (hq : quietE {} e = true) :
-    CondSpec L g (truthETest g e negate label) label (fun m => evalCond L m (.truthE e) != negate) := by
+    (hok : e.ok = true) :
+    CondSpec L g (truthETest g e negate label) label (fun m => evalCond L m (.truthE e) != negate)
+      (fun m => (treeRun L m e).2) := by
   intro pre post s t hold hinv hl
-  obtain ⟨s1, he, hsrc, hsp, ha, hza⟩ := treeOps_run L e hok hq s
+  obtain ⟨s1, he, hsrc, hsp, ha, hza⟩ := treeOps_run L e hok s
   let ops : List (Mn × Option Atom) := treeOps e ++ (if e.topArithm then [] else [(Mn.CMP, some (Atom.const 0))])
-  have hrun : ∃ s2, execSeq s (ops.map fun p => (p.1, opdOf L p.2)) = some s2 ∧ srcOf s2 = srcOf s ∧ s2.sp = s.sp ∧
-      s2.f.z = (treeVal L (srcOf s) e == 0) := by
+  have hrun : ∃ s2, execSeq s (ops.map fun p => (p.1, opdOf L p.2)) = some s2 ∧ srcOf s2 = (treeRun L (srcOf s) e).2 ∧ s2.sp = s.sp ∧
+      s2.f.z = ((treeRun L (srcOf s) e).1 == 0) := by
     by_cases htop : e.topArithm = true
     · refine ⟨s1, ?_, hsrc, hsp, by rw [← ha]; exact hza⟩
       simp only [ops, htop, if_true, List.append_nil]; exact he
     · have htop' : e.topArithm = false := by simpa using htop
-      refine ⟨s1.cmp s1.a 0, ?_, by rw [← hsrc]; rfl, by rw [← hsp]; rfl, ?_⟩
+      refine ⟨s1.cmp s1.a 0, ?_, by show srcOf (s1.cmp s1.a 0) = _; rw [← hsrc]; rfl, by rw [← hsp]; rfl, ?_⟩
       · have hsplit : ops.map (fun p => (p.1, opdOf L p.2))
             = (treeOps e).map (fun p => (p.1, opdOf L p.2)) ++ [(Mn.CMP, Opd.imm 0)] := by
           simp [ops, htop', opdOf, opd]
@@ -999,46 +1085,50 @@ theorem truthETest_correct (L : Layout) (g : GState) (e : GExpr) (negate : Bool)
   refine ⟨s2, ?_, hsrc2, hsp2, trivial⟩
   cases negate with
   | true =>
-    have h3 := br_step L (pre ++ pl) [.br .BEQ label] post 0 .BEQ label s2 (treeVal L (srcOf s) e == 0) t rfl
+    have h3 := br_step L (pre ++ pl) [.br .BEQ label] post 0 .BEQ label s2 ((treeRun L (srcOf s) e).1 == 0) t rfl
       (by simp [Cpu.taken, hz2]) (by simpa [mn] using hl')
     have hmn : mn = .BEQ := rfl
     rw [hmn] at h12 w2 ⊢
     rw [w2] at h3
     have := h12.trans (h3.cast (by len_arith) rfl)
-    simpa [evalCond, bne, List.length_append, hlen, Nat.add_assoc] using this
+    simpa [evalCond_cmp, evalCond_truth, evalCond_nottruth, evalCond_cmpE, evalCond_truthE, evalCond_not, evalCond_and, evalCond_or, condEff_cmp, condEff_truth, condEff_nottruth, condEff_cmpE, condEff_truthE, condEff_not, condEff_and, condEff_or, bne, List.length_append, hlen, Nat.add_assoc] using this
   | false =>
-    have h3 := br_step L (pre ++ pl) [.br .BNE label] post 0 .BNE label s2 (!(treeVal L (srcOf s) e == 0)) t rfl
+    have h3 := br_step L (pre ++ pl) [.br .BNE label] post 0 .BNE label s2 (!((treeRun L (srcOf s) e).1 == 0)) t rfl
       (by simp [Cpu.taken, hz2]) (by simpa [mn] using hl')
     have hmn : mn = .BNE := rfl
     rw [hmn] at h12 w2 ⊢
     rw [w2] at h3
     have := h12.trans (h3.cast (by len_arith) rfl)
-    simpa [evalCond, bne, List.length_append, hlen, Nat.add_assoc] using this
+    simpa [evalCond_cmp, evalCond_truth, evalCond_nottruth, evalCond_cmpE, evalCond_truthE, evalCond_not, evalCond_and, evalCond_or, condEff_cmp, condEff_truth, condEff_nottruth, condEff_cmpE, condEff_truthE, condEff_not, condEff_and, condEff_or, bne, List.length_append, hlen, Nat.add_assoc] using this
 
 /-- the specification of condition code with several tests: as `CondSpec`, except that on the jumping exit
     the flag belief is claimed only when a single test jumps there (`single`) -/
-def CondSpecM (L : Layout) (g : GState) (r : List GLine × GState) (label : Lbl) (single : Bool) (jumpIf : SrcSt → Bool) : Prop :=
+def CondSpecM (L : Layout) (g : GState) (r : List GLine × GState) (label : Lbl) (single : Bool) (jumpIf : SrcSt → Bool)
+    (eff : SrcSt → SrcSt) : Prop :=
   ∀ (pre post : List GLine) (s : Cpu) (t : Nat), Old g pre → FlagsInv L g.flags s →
     findLbl (pre ++ r.1 ++ post) label = some t →
     ∃ s', Steps L (pre ++ r.1 ++ post) pre.length s (if jumpIf (srcOf s) then t else pre.length + r.1.length) s' ∧
-      srcOf s' = srcOf s ∧ s'.sp = s.sp ∧
+      srcOf s' = eff (srcOf s) ∧ s'.sp = s.sp ∧
       FlagsInv L (if jumpIf (srcOf s) && !single then none else r.2.flags) s'
 
-theorem CondSpec.toM {L : Layout} {g : GState} {r : List GLine × GState} {label : Lbl} {j : SrcSt → Bool}
-    (h : CondSpec L g r label j) : CondSpecM L g r label true j := by
+theorem CondSpec.toM {L : Layout} {g : GState} {r : List GLine × GState} {label : Lbl} {j : SrcSt → Bool} {e : SrcSt → SrcSt}
+    (h : CondSpec L g r label j e) : CondSpecM L g r label true j e := by
   intro pre post s t hold hinv hl
   obtain ⟨s', hs, hm, hsp, hf⟩ := h pre post s t hold hinv hl
   exact ⟨s', hs, hm, hsp, by simpa using hf⟩
 
 theorem CondSpecM.congr {L : Layout} {g : GState} {r : List GLine × GState} {label : Lbl} {b : Bool} {j j' : SrcSt → Bool}
-    (h : ∀ m, j m = j' m) (hs : CondSpecM L g r label b j) : CondSpecM L g r label b j' := by
+    {e e' : SrcSt → SrcSt} (h : ∀ m, j m = j' m) (he : ∀ m, e m = e' m) (hs : CondSpecM L g r label b j e) :
+    CondSpecM L g r label b j' e' := by
   have : j = j' := funext h
-  rw [← this]; exact hs
+  have h2 : e = e' := funext he
+  rw [← this, ← h2]; exact hs
 
 /-- two tests in a row that jump to the same label: `a && b` when jumping on false, `a || b` when jumping on true -/
 theorem condSeqBoth (L : Layout) (g : GState) (ra rb : List GLine × GState) (label : Lbl) (sa sb : Bool) (ja jb : SrcSt → Bool)
-    (ha : CondSpecM L g ra label sa ja) (hb : CondSpecM L ra.2 rb label sb jb) (hfa : Fresh g ra) :
-    CondSpecM L g (ra.1 ++ rb.1, rb.2) label false (fun m => ja m || jb m) := by
+    (ea eb : SrcSt → SrcSt)
+    (ha : CondSpecM L g ra label sa ja ea) (hb : CondSpecM L ra.2 rb label sb jb eb) (hfa : Fresh g ra) :
+    CondSpecM L g (ra.1 ++ rb.1, rb.2) label false (fun m => ja m || jb (ea m)) (fun m => if ja m then ea m else eb (ea m)) := by
   intro pre post s t hold hinv hl
   dsimp only at hl ⊢
   have w1 : pre ++ (ra.1 ++ rb.1) ++ post = pre ++ ra.1 ++ (rb.1 ++ post) := by simp
@@ -1048,30 +1138,31 @@ theorem condSeqBoth (L : Layout) (g : GState) (ra rb : List GLine × GState) (la
   rcases Bool.eq_false_or_eq_true (ja (srcOf s)) with hja | hja
   · -- first test jumps
     simp only [hja, if_true] at hs1
-    exact ⟨s1, by simpa [hja] using hs1, hm1, hsp1, by simp [hja]⟩
+    exact ⟨s1, by simpa [hja] using hs1, by simpa [hja] using hm1, hsp1, by simp [hja]⟩
   · -- first test falls through
     simp only [hja, Bool.false_eq_true, if_false, Bool.false_and] at hs1 hf1
     have hold1 : Old ra.2 (pre ++ ra.1) := (hold.mono hfa.1).append (Old.of_fresh hfa)
     obtain ⟨s2, hs2, hm2, hsp2, hf2⟩ := hb (pre ++ ra.1) post s1 t hold1 hf1 (by rw [← w2]; exact hl)
     rw [← w2, hm1] at hs2
-    rw [hm1] at hf2
-    rcases Bool.eq_false_or_eq_true (jb (srcOf s)) with hjb | hjb
+    rw [hm1] at hf2 hm2
+    rcases Bool.eq_false_or_eq_true (jb (ea (srcOf s))) with hjb | hjb
     · simp only [hjb, if_true] at hs2
-      refine ⟨s2, ?_, by rw [hm2, hm1], by rw [hsp2, hsp1], by simp [hjb]⟩
+      refine ⟨s2, ?_, by simpa [hja] using hm2, by rw [hsp2, hsp1], by simp [hjb]⟩
       simp only [hja, hjb, Bool.or_true, if_true]
       exact hs1.trans (hs2.cast (by len_arith) rfl)
     · simp only [hjb, Bool.false_eq_true, if_false] at hs2
-      refine ⟨s2, ?_, by rw [hm2, hm1], by rw [hsp2, hsp1], by simpa [hja, hjb] using hf2⟩
+      refine ⟨s2, ?_, by simpa [hja] using hm2, by rw [hsp2, hsp1], by simpa [hja, hjb] using hf2⟩
       simp only [hja, hjb, Bool.or_self, Bool.false_eq_true, if_false]
       exact hs1.trans (hs2.cast (by len_arith) (by len_arith))
 
 /-- a first test that jumps over the second one to a fresh `.ifstart` label placed behind it:
     `a && b` when jumping on true, `a || b` when jumping on false -/
 theorem condSkipOver (L : Layout) (g : GState) (ra rb : List GLine × GState) (label : Lbl) (sa sb : Bool) (ja jb : SrcSt → Bool)
-    (ha : CondSpecM L { g with cIf := g.cIf + 1 } ra ⟨.ifstart, g.cIf⟩ sa ja) (hb : CondSpecM L ra.2 rb label sb jb)
+    (ea eb : SrcSt → SrcSt)
+    (ha : CondSpecM L { g with cIf := g.cIf + 1 } ra ⟨.ifstart, g.cIf⟩ sa ja ea) (hb : CondSpecM L ra.2 rb label sb jb eb)
     (hfa : Fresh { g with cIf := g.cIf + 1 } ra) (hfb : Fresh ra.2 rb) :
     CondSpecM L g (ra.1 ++ rb.1 ++ [.lab ⟨.ifstart, g.cIf⟩], { rb.2 with flags := none }) label false
-      (fun m => !ja m && jb m) := by
+      (fun m => !ja m && jb (ea m)) (fun m => if ja m then ea m else eb (ea m)) := by
   intro pre post s t hold hinv hl
   dsimp only at hl ⊢
   generalize hst : (⟨.ifstart, g.cIf⟩ : Lbl) = st at *
@@ -1114,24 +1205,25 @@ theorem condSkipOver (L : Layout) (g : GState) (ra rb : List GLine × GState) (l
   rw [← w1] at hs1
   rcases Bool.eq_false_or_eq_true (ja (srcOf s)) with hja | hja
   · simp only [hja, if_true] at hs1
-    refine ⟨s1, ?_, hm1, hsp1, by simp⟩
+    refine ⟨s1, ?_, by simpa [hja] using hm1, hsp1, by simp⟩
     simp only [hja, Bool.not_true, Bool.false_and, Bool.false_eq_true, if_false]
     exact hs1.trans (hlab s1)
   · simp only [hja, Bool.false_eq_true, if_false, Bool.false_and] at hs1 hf1
     obtain ⟨s2, hs2, hm2, hsp2, hf2⟩ := hb (pre ++ ra.1) ([GLine.lab st] ++ post) s1 t hold1 hf1 (by rw [← w2]; exact hl)
     rw [← w2, hm1] at hs2
-    rcases Bool.eq_false_or_eq_true (jb (srcOf s)) with hjb | hjb
+    rw [hm1] at hm2
+    rcases Bool.eq_false_or_eq_true (jb (ea (srcOf s))) with hjb | hjb
     · simp only [hjb, if_true] at hs2
-      refine ⟨s2, ?_, by rw [hm2, hm1], by rw [hsp2, hsp1], by simp⟩
+      refine ⟨s2, ?_, by simpa [hja] using hm2, by rw [hsp2, hsp1], by simp⟩
       simp only [hja, hjb, Bool.not_false, Bool.and_true, if_true]
       exact hs1.trans (hs2.cast (by len_arith) rfl)
     · simp only [hjb, Bool.false_eq_true, if_false] at hs2
-      refine ⟨s2, ?_, by rw [hm2, hm1], by rw [hsp2, hsp1], by simp⟩
+      refine ⟨s2, ?_, by simpa [hja] using hm2, by rw [hsp2, hsp1], by simp⟩
       simp only [hja, hjb, Bool.not_false, Bool.and_false, Bool.false_eq_true, if_false]
       exact (hs1.trans (hs2.cast (by len_arith) (by len_arith))).trans (hlab s2)
 
 theorem genCond_correct (L : Layout) (c : Cond) : ∀ (g : GState) (negate : Bool) (label : Lbl), CondOK c = true →
-    CondSpecM L g (genCond g c negate label) label c.singleExit (fun m => evalCond L m c != negate) := by
+    CondSpecM L g (genCond g c negate label) label c.singleExit (fun m => evalCond L m c != negate) (fun m => condEff L m c) := by
   induction c with
   | cmp op a b =>
     intro g negate label hok
@@ -1143,7 +1235,7 @@ theorem genCond_correct (L : Layout) (c : Cond) : ∀ (g : GState) (negate : Boo
     refine (this.congr ?_).toM
     intro m
     have := finalOp_eval .ne negate false (rval L m v.ra) 0
-    simpa [evalCond, COp.eval] using this
+    simpa [evalCond_truth, COp.eval] using this
   | nottruth v =>
     intro g negate label hok
     simp only [genCond]
@@ -1151,21 +1243,25 @@ theorem genCond_correct (L : Layout) (c : Cond) : ∀ (g : GState) (negate : Boo
     refine (this.congr ?_).toM
     intro m
     have := finalOp_eval .eq negate false (rval L m v.ra) 0
-    simpa [evalCond, COp.eval] using this
+    simpa [evalCond_nottruth, COp.eval] using this
   | cmpE op e b eLeft =>
     intro g negate label hok
     simp only [CondOK, Bool.and_eq_true, Bool.not_eq_true'] at hok
-    exact (cmpETest_correct L g op e b eLeft negate label hok.1.1 hok.1.2 hok.2).toM
+    exact (cmpETest_correct L g op e b eLeft negate label hok.1 hok.2).toM
   | truthE e =>
     intro g negate label hok
     simp only [CondOK, Bool.and_eq_true] at hok
-    exact (truthETest_correct L g e negate label hok.1 hok.2).toM
+    exact (truthETest_correct L g e negate label hok).toM
+  | cmpR op e y eLeft =>
+    intro g negate label hok
+    simp only [CondOK, Bool.and_eq_true] at hok
+    exact (cmpRTest_correct L g op e y eLeft negate label hok.1).toM
   | not c ih =>
     intro g negate label hok
     simp only [genCond, Cond.singleExit]
-    refine (ih g (!negate) label (by simpa [CondOK] using hok)).congr ?_
+    refine (ih g (!negate) label (by simpa [CondOK] using hok)).congr ?_ (fun m => rfl)
     intro m
-    simp only [evalCond]
+    simp only [evalCond_not]
     generalize evalCond L m c = x
     cases x <;> cases negate <;> rfl
   | and a b iha ihb =>
@@ -1174,41 +1270,57 @@ theorem genCond_correct (L : Layout) (c : Cond) : ∀ (g : GState) (negate : Boo
     cases negate with
     | true =>
       simp only [genCond, Cond.singleExit]
-      refine (condSeqBoth L g _ _ label _ _ _ _ (iha g true label hok.1) (ihb _ true label hok.2) (genCond_fresh a g true label)).congr ?_
-      intro m
-      simp only [evalCond]
-      generalize evalCond L m a = x
-      generalize evalCond L m b = y
-      cases x <;> cases y <;> rfl
+      refine (condSeqBoth L g _ _ label _ _ _ _ _ _ (iha g true label hok.1) (ihb _ true label hok.2) (genCond_fresh a g true label)).congr ?_ ?_
+      · intro m
+        simp only [evalCond_and]
+        generalize evalCond L m a = x
+        generalize evalCond L (condEff L m a) b = y
+        cases x <;> cases y <;> rfl
+      · intro m
+        simp only [condEff_and]
+        generalize evalCond L m a = x
+        cases x <;> rfl
     | false =>
       simp only [genCond, Cond.singleExit]
-      refine (condSkipOver L g _ _ label _ _ _ _ (iha _ true _ hok.1) (ihb _ false label hok.2)
-        (genCond_fresh a _ true _) (genCond_fresh b _ false label)).congr ?_
-      intro m
-      simp only [evalCond]
-      generalize evalCond L m a = x
-      generalize evalCond L m b = y
-      cases x <;> cases y <;> rfl
+      refine (condSkipOver L g _ _ label _ _ _ _ _ _ (iha _ true _ hok.1) (ihb _ false label hok.2)
+        (genCond_fresh a _ true _) (genCond_fresh b _ false label)).congr ?_ ?_
+      · intro m
+        simp only [evalCond_and]
+        generalize evalCond L m a = x
+        generalize evalCond L (condEff L m a) b = y
+        cases x <;> cases y <;> rfl
+      · intro m
+        simp only [condEff_and]
+        generalize evalCond L m a = x
+        cases x <;> rfl
   | or a b iha ihb =>
     intro g negate label hok
     simp only [CondOK, Bool.and_eq_true] at hok
     cases negate with
     | false =>
       simp only [genCond, Cond.singleExit]
-      refine (condSeqBoth L g _ _ label _ _ _ _ (iha g false label hok.1) (ihb _ false label hok.2) (genCond_fresh a g false label)).congr ?_
-      intro m
-      simp only [evalCond]
-      generalize evalCond L m a = x
-      generalize evalCond L m b = y
-      cases x <;> cases y <;> rfl
+      refine (condSeqBoth L g _ _ label _ _ _ _ _ _ (iha g false label hok.1) (ihb _ false label hok.2) (genCond_fresh a g false label)).congr ?_ ?_
+      · intro m
+        simp only [evalCond_or]
+        generalize evalCond L m a = x
+        generalize evalCond L (condEff L m a) b = y
+        cases x <;> cases y <;> rfl
+      · intro m
+        simp only [condEff_or]
+        generalize evalCond L m a = x
+        cases x <;> rfl
     | true =>
       simp only [genCond, Cond.singleExit]
-      refine (condSkipOver L g _ _ label _ _ _ _ (iha _ false _ hok.1) (ihb _ true label hok.2)
-        (genCond_fresh a _ false _) (genCond_fresh b _ true label)).congr ?_
-      intro m
-      simp only [evalCond]
-      generalize evalCond L m a = x
-      generalize evalCond L m b = y
-      cases x <;> cases y <;> rfl
+      refine (condSkipOver L g _ _ label _ _ _ _ _ _ (iha _ false _ hok.1) (ihb _ true label hok.2)
+        (genCond_fresh a _ false _) (genCond_fresh b _ true label)).congr ?_ ?_
+      · intro m
+        simp only [evalCond_or]
+        generalize evalCond L m a = x
+        generalize evalCond L (condEff L m a) b = y
+        cases x <;> cases y <;> rfl
+      · intro m
+        simp only [condEff_or]
+        generalize evalCond L m a = x
+        cases x <;> rfl
 
 end CV.GenStruct
